@@ -415,6 +415,12 @@ def decode(harness, vals):
             b = r.bytes_n(8, L[1])
             w, dot = r.i128(), r.u8()
             return [call("vector_dot", a, b, w)] if dot else [call("vector_sum", a, w)]
+        if base == "c12_vector_dot16":
+            a = r.bytes_n(16, 16)
+            edge = [-(1 << 63), (1 << 63) - 1, -1, 1, 0, 1 << 32]
+            s0, s1 = r.u64() % 6, r.u64() % 6
+            b = (edge[s0] % (1 << 64)).to_bytes(8, "little") + (edge[s1] % (1 << 64)).to_bytes(8, "little")
+            return [call("vector_dot", a, b, 8)]
         if base == "c12_vector_take":
             d = r.bytes_n(8, L[0])
             m = r.bytes_n(2, L[1])
